@@ -78,6 +78,16 @@ def disease_cfg(rng, d):
     return c
 
 
+def clock_of(disease):
+    """ 'inherited' when the module steps with the simulation (its index `disease.ti` IS `sim.ti`), else 'own-timestep' """
+    try:
+        t, st = disease.t, disease.sim.t
+        same = float(t.dt) == float(st.dt) and str(t.unit) == str(st.unit)
+    except Exception:
+        same = True
+    return 'inherited' if same else 'own-timestep'
+
+
 def all_active(sim):
     return sim.people.auids
 
